@@ -386,6 +386,9 @@ public:
 				}
 				remove_leading_zeros();
 				r.setblock(0, static_cast<BlockType>(remainder));
+				r.remove_leading_zeros();
+				_sign = !iszero() && (a.sign() != b.sign());
+				r.setsign(!r.iszero() && a.sign());
 				return;
 			}
 
@@ -463,7 +466,10 @@ public:
 			r.setblock(n - 1, static_cast<BlockType>(normalized_a.block(n - 1) >> shift));
 		}
 		remove_leading_zeros();
-		_sign = a.sign() ^ b.sign();
+		r.remove_leading_zeros();
+		// truncated division: the quotient is negative when the signs differ, the remainder takes the sign of the dividend; a zero has no sign
+		_sign = !iszero() && (a.sign() != b.sign());
+		r.setsign(!r.iszero() && a.sign());
 	}
 
 	// modifiers
@@ -1347,7 +1353,7 @@ inline einteger<BlockType> operator/(const einteger<BlockType>& lhs, long long r
 
 template<typename BlockType>
 inline einteger<BlockType> operator%(const einteger<BlockType>& lhs, long long rhs) {
-	return operator/(lhs, einteger<BlockType>(rhs));
+	return operator%(lhs, einteger<BlockType>(rhs));
 }
 
 template<typename BlockType>
@@ -1380,7 +1386,7 @@ inline einteger<BlockType> operator/(long long lhs, const einteger<BlockType>& r
 
 template<typename BlockType>
 inline einteger<BlockType> operator%(long long lhs, const einteger<BlockType>& rhs) {
-	return operator/(einteger<BlockType>(lhs), rhs);
+	return operator%(einteger<BlockType>(lhs), rhs);
 }
 
 }} // namespace sw::universal
